@@ -102,10 +102,11 @@ structure TSlot where
   s : List Nat
 deriving Inhabited
 
-/-- 64-bit iterator slot: the mirrored `treemap::Iter` / `treemap::IntoIter` over the C03 list cursor -/
+/-- 64-bit iterator slot: the mirrored `treemap::Iter` / `treemap::IntoIter` over the mirrored 32-bit
+    iterators `bitmap::Iter` / `bitmap::IntoIter` (`TIter.Inner.iter32`, Iter.lean) -/
 inductive JIter where
-  | borrowed (it : TIter.Iter TIter.Inner.list)
-  | owned (it : TIter.IntoIter TIter.Inner.list)
+  | borrowed (it : TIter.Iter TIter.Inner.iter32)
+  | owned (it : TIter.IntoIter TIter.Inner.iter32)
 
 structure JSlot where
   m : JIter
